@@ -10,14 +10,14 @@ WORK=$ROOT/.work
 prop=$1
 out=$2
 case "$prop" in
-    C05) target=fz_parse; maxlen=96;;
-    C17) target=fz_json; maxlen=128;;
-    C19|C01) target=fz_program; maxlen=1024;;
-    C02|C03) target=fz_cmp; maxlen=256;;
-    C04|C16) target=fz_fmt; maxlen=256;;
+    C05) target=fz_parse; maxlen=96; runs=3000000;;
+    C17) target=fz_json; maxlen=128; runs=1000000;;
+    C19|C01) target=fz_program; maxlen=1024; runs=150000;;
+    C02|C03) target=fz_cmp; maxlen=256; runs=1000000;;
+    C04|C16) target=fz_fmt; maxlen=256; runs=600000;;
     *) exit 0;;
 esac
-RUNS=${VERIF_FUZZ_RUNS:-400000}
+RUNS=${VERIF_FUZZ_RUNS:-$runs}
 JOBS=${VERIF_FUZZ_JOBS:-6}
 SEED=${VERIF_SEED:-0}
 export CARGO_NET_OFFLINE=true
